@@ -29,6 +29,7 @@ StepFire == Is("step") /\ E.op = "fire" /\ Keep /\ (IF sig = "idle" THEN Fire EL
 StepRelease == Is("step") /\ E.op = "release" /\ Keep /\ (IF CanRelease(E.k) THEN Release(E.k) ELSE UNCHANGED vars)
 StepDrop == Is("step") /\ E.op = "drop" /\ Keep /\ (IF CanDrop(E.c) THEN ClientDrop(E.c) ELSE UNCHANGED vars)
 StepEnd == Is("step") /\ E.op = "end_incoming" /\ Keep /\ (IF ended THEN UNCHANGED vars ELSE EndIncoming)
+StepAccErr == Is("step") /\ E.op = "accept_error" /\ Keep /\ UNCHANGED vars     \* the incoming stream yields an error: the loop goes on (no model step)
 StepAge == Is("step") /\ E.op = "age" /\ Keep /\ UNCHANGED vars          \* time passes; each timer that fires is a conn_aged hook event
 \* ---- hook events at the linearisation points of the accept loop
 Taken == Is("taken") /\ order' = Append(order, E.c) /\ UNCHANGED <<vars, free>>
@@ -65,7 +66,7 @@ CallDone == Is("call_done") /\ Keep
 \* the client could not even establish its side (the listener is gone): from the server's view that client went away
 ConnectErr == Is("client_connect_err") /\ Keep /\ (IF CanDrop(E.c) THEN ClientDrop(E.c) ELSE UNCHANGED vars)
 Epilogue == Is("epilogue") /\ free' = TRUE /\ UNCHANGED <<vars, order>>
-Other == Is(E.e) /\ E.e \in {"srv_done", "call_aborted", "resolved", "final", "end"} /\ UNCHANGED <<vars, order, free>>
+Other == Is(E.e) /\ E.e \in {"srv_done", "call_aborted", "resolved", "final", "end", "accept_error"} /\ UNCHANGED <<vars, order, free>>
 Reset == /\ Is("reset") /\ order' = <<>> /\ free' = FALSE
          /\ sig' = "idle" /\ conn' = [c \in Conns |-> "none"] /\ bcast' = FALSE /\ resolved' = FALSE /\ dropped' = {} /\ ended' = FALSE
          /\ call' = [k \in Calls |-> [ph |-> "unsent", left |-> Items[k], acc |-> FALSE]]
@@ -73,7 +74,7 @@ Reset == /\ Is("reset") /\ order' = <<>> /\ free' = FALSE
 Silent == /\ l <= Len(Rec) /\ UNCHANGED <<l, order, free>>
           /\ \/ free /\ ((\E k \in Calls : Release(k)) \/ (\E c \in Conns : ClientDrop(c)))
              \/ \E c \in Conns : Abandon(c)                        \* not logged: the dropped incoming stream takes its queue with it
-TNext == StepOffer \/ StepSend \/ StepFire \/ StepRelease \/ StepDrop \/ StepEnd \/ StepAge \/ Taken \/ HAccepted \/ HObserved \/ HEnded
+TNext == StepAccErr \/ StepOffer \/ StepSend \/ StepFire \/ StepRelease \/ StepDrop \/ StepEnd \/ StepAge \/ Taken \/ HAccepted \/ HObserved \/ HEnded
          \/ HBroadcast \/ HResolved \/ HSawSignal \/ HAged \/ HConnClosed \/ SrvReq \/ CallDone \/ ConnectErr \/ Epilogue \/ Other \/ Reset \/ Silent
 TSpec == TInit /\ [][TNext]_tvars
 Progress == TLCSet(1, IF l > TLCGet(1) THEN l ELSE TLCGet(1))
